@@ -28,11 +28,12 @@ Inductive cbkind := KNil | KLog | KCallsRel | KWait (c : nat) | KWwr (c : nat) |
 Record ref := { rin : bool; rflag : bool; rkind : cbkind; rlast : option notif }.
 
 Inductive gpc := GGate0 | GWait | GWaitC | GInRes | GStore (v : nat) (hasrel : bool) (e : nat) | GDone.
-Record gor := { gcanc : bool; gwait : option nat; gnonce : nat; gpcv : gpc; gent : bool (* the resolver was entered *) }.
+Record gor := { gcanc : bool; gwait : option nat; gnonce : nat; gpcv : gpc; gent : bool (* the resolver was entered *);
+                grel : bool (* ghost: the resolver call returned a release function *) }.
 
 (* one call of a release function: which one, what the target held at that moment, how many present references
    had last been told that this value is current *)
-Record relcall := { rc_id : nat; rc_target : nat; rc_stale : nat }.
+Record relcall := { rc_id : nat; rc_val : nat; rc_target : nat; rc_stale : nat }.
 
 Inductive apc := AParked | ARan.
 Record async := { as_nonce : nat; as_pc : apc }.
@@ -143,7 +144,7 @@ Definition set_panicked (s : st) : st :=
      asyncs := asyncs s; relacts := relacts s; conss := conss s; panicked := true |}.
 
 Definition ref0 : ref := {| rin := false; rflag := true; rkind := KNil; rlast := None |}.
-Definition gor0 : gor := {| gcanc := true; gwait := None; gnonce := 0; gpcv := GDone; gent := false |}.
+Definition gor0 : gor := {| gcanc := true; gwait := None; gnonce := 0; gpcv := GDone; gent := false; grel := false |}.
 Definition cons0 : cons :=
   {| ck := CKWait; cref := 0; ccanc := true; cpcv := CRet 0 1 false; cw_res := None; ww_res := false; ww_nonce := 0; ww_prom := None;
      ww_once := false; ww_fired := 0; ww_firepc := None; ac_val := 0; ac_err := 0; ac_res := false; ac_nonce := 0; ac_snap := 0;
@@ -154,7 +155,8 @@ Definition gdone (x : gor) : bool := match gpcv x with GDone => true | _ => fals
 Definition setg (s : st) (g : nat) (x : gor) : st := set_gs s (set_nth (gs s) g x).
 Definition setc (s : st) (c : nat) (x : cons) : st := set_conss s (set_nth (conss s) c x).
 Definition with_gpc (x : gor) (p : gpc) : gor :=
-  {| gcanc := gcanc x; gwait := gwait x; gnonce := gnonce x; gpcv := p; gent := match p with GInRes => true | _ => gent x end |}.
+  {| gcanc := gcanc x; gwait := gwait x; gnonce := gnonce x; gpcv := p; gent := match p with GInRes => true | _ => gent x end;
+     grel := match p with GStore _ hr _ => hr | _ => grel x end |}.
 Definition nrefs (s : st) : nat := cnt rin (refs s).
 
 (* ---------- consumers' reference callbacks ---------- *)
@@ -248,7 +250,7 @@ Definition call_cbs (s : st) (n : notif) : st :=
 Definition cancel_g (s : st) (og : option nat) : st :=
   match og with
   | Some g => match nth_error (gs s) g with
-              | Some x => setg s g {| gcanc := true; gwait := gwait x; gnonce := gnonce x; gpcv := gpcv x; gent := gent x |}
+              | Some x => setg s g {| gcanc := true; gwait := gwait x; gnonce := gnonce x; gpcv := gpcv x; gent := gent x; grel := grel x |}
               | None => s
               end
   | None => s
@@ -259,7 +261,7 @@ Definition is_res (v e : nat) (l : option notif) : bool :=
 
 (* calling release function [id], which belongs to value v / error e *)
 Definition log_release (s : st) (id v e : nat) : st :=
-  set_rellog s (rellog s ++ [{| rc_id := id; rc_target := target s;
+  set_rellog s (rellog s ++ [{| rc_id := id; rc_val := v; rc_target := target s;
                                 rc_stale := cnt (fun x => rin x && is_res v e (rlast x)) (refs s) |}]).
 
 (* clearResolvedState *)
@@ -283,7 +285,7 @@ Definition start_resolve (s : st) : st :=
   if Nat.eqb (kctx s1) 0 || Nat.eqb (nrefs s1) 0 then s1
   else
     let g := length (gs s1) in
-    let s2 := set_gs s1 (gs s1 ++ [{| gcanc := false; gwait := waitch s1; gnonce := nonce s1; gpcv := GGate0; gent := false |}]) in
+    let s2 := set_gs s1 (gs s1 ++ [{| gcanc := false; gwait := waitch s1; gnonce := nonce s1; gpcv := GGate0; gent := false; grel := false |}]) in
     set_rcancel (set_waitch s2 (Some g)) (Some g).
 
 (* SetContext(ctx) -> updated *)
